@@ -49,6 +49,10 @@ TraceLoop ==
         /\ Judge(hs # <<>> /\ hs[1].url = e.start /\ hs[1].method = e.method, "loop_chain_not_following_rules")
         /\ Judge(StopsForAReason(e.g, e.domains, hs, er, e.maxh) \/ (e.domains /\ hs[Len(hs)].url \notin DOMAIN e.g), "loop_stops_without_reason")
         /\ Drift(model[1] = hs /\ model[2] = er, "loop_layer_I")
+        \* the same graph with every rule triggered by the backend's status code: the same chain
+        /\ Judge(HopsOf(e.out_b) = hs /\ e.out_b.error = e.out.error, "loop_backend_triggered_chain_differs")
+        \* test-examples on the start URL as an example of its rule: it fails exactly when the chain it starts is unsound
+        /\ \A k \in 1..2 : Judge(e.te[k] = "none" \/ (e.te[k] = "failed") = (er \in {"Loop", "TooManyHops"}), "test_examples_disagree_with_chain")
 AllSame(t) == t[1] = t[2] /\ t[2] = t[3]
 TraceReset == IsEvent("reset")
 TraceAnalyses ==
